@@ -21,7 +21,7 @@ def run(tier, replay, prop="C08"):
             w = json.load(open(replay))["witness"]
             jobs = [dict(seed=w["seed"], index=w["index"], sd=sd, flavor="asan", driver=DRV, steps=40)]
         results = vlib.pmap(bs_runner.run_history, jobs)
-        tot = dict(node_builds=0, builds=0, ok_builds=0, failed_builds=0, null_builds=0, commands_run=0, steps=0, files_checked=0, clean_oracle_runs=0, unexpected_failures=0)
+        tot = dict(node_builds=0, builds=0, ok_builds=0, failed_builds=0, null_builds=0, commands_run=0, steps=0, files_checked=0, archives_checked=0, clean_oracle_runs=0, unexpected_failures=0)
         shapes, kinds = set(), {}
         for r in results:
             for k in tot:
@@ -41,11 +41,11 @@ def run(tier, replay, prop="C08"):
         chk.cov.update(tot)
         chk.cov["edit_steps_by_kind"] = kinds
         chk.cov["histories"] = len(results)
-        chk.cov["rule"] = ("history = generated description (shell/phony/mkdir/symlink tools, virtual nodes, multiple outputs, named targets sharing sub-graphs) + steps from "
-                           "{edit/touch source, delete/tamper output, change args, add/remove/rename command, rewire inputs, move a node between a command's inputs and outputs, "
+        chk.cov["rule"] = ("history = generated description (shell/phony/mkdir/symlink/archive tools, virtual nodes, multiple outputs, named targets sharing sub-graphs) + steps from "
+                           "{edit/touch source, delete/tamper output, change args, add/remove/rename command, rewire inputs, change the member list of an archive, move a node between a command's inputs and outputs, "
                            "turn a source into a produced node, build default or named target, serial or -j4}, each build a new `llbuild buildsystem build` process (ASan+UBSan; "
                            "TSan subset in thorough); after every successful build every output reachable from the target is compared byte for byte with contents PREDICTED from the "
-                           "description and the current non-produced files (commands are one deterministic helper whose hash is recomputed in Python), cross-checked against real clean "
+                           "description and the current non-produced files (commands are one deterministic helper whose hash is recomputed in Python; archives are compared by member list and member contents), cross-checked against real clean "
                            "builds in pristine copies; then the same target is rebuilt and the run log must not grow; non-trivial = a build after an edit that ran some but not all commands")
         chk.assumptions = ["commands are deterministic functions of declared inputs by construction", "edits are made observable with explicit, strictly increasing mtimes",
                            "failing builds are not judged here (C10), only counted: unexpected_failures"]
